@@ -61,6 +61,7 @@ MonInitVal ==
     curCmd |-> "",               \* command of the message being executed ("" = none: asynchronous emission)
     movedEver |-> {},            \* devices set during this call
     curRun |-> "none",           \* run key of the message being executed ("none": no message in progress)
+    cmdSave |-> <<"", "none">>,  \* <<curCmd, curRun>> of the command a request interrupted (it goes on when the request has been handled)
     keyOrd |-> [k \in RunKeys |-> 0],        \* run key -> ordinal of the run currently open under that key
     pendingOpen |-> "none",
     dupOpen |-> FALSE,           \* an open_run for a key that is already open was executed
@@ -480,12 +481,13 @@ UpdSus(m, e) ==
 UpdReq(m, e, s) ==
   IF e[2] \in {"sus_install", "sus_remove", "sig_put"}
   \* (a signal change is recorded with the direction of the change -- sig_put1 / sig_put0 -- so that findings can name it)
-  THEN UpdSus([m EXCEPT !.curCmd = "", !.curRun = "none",
+  THEN UpdSus([m EXCEPT !.curCmd = "", !.curRun = "none", !.cmdSave = IF m.curCmd # "" THEN <<m.curCmd, m.curRun>> ELSE @,
                         !.reqs = Append(@, [kind |-> IF e[2] = "sig_put" THEN (IF e[6] # 0 THEN "sig_put1" ELSE "sig_put0") ELSE e[2],
                                             pc |-> Where(m), st |-> m.st, res |-> m.ckpt, out |-> "", after |-> m.lastCmd])], e) ELSE
   LET kind == e[2]
       rec == [kind |-> kind, pc |-> Where(m), st |-> m.st, res |-> m.ckpt, out |-> "", after |-> m.lastCmd]
-  IN [m EXCEPT !.reqs = Append(@, rec), !.curCmd = "", !.curRun = "none", !.hardReq = (@ \/ kind = "pause")]
+  IN [m EXCEPT !.reqs = Append(@, rec), !.curCmd = "", !.curRun = "none", !.hardReq = (@ \/ kind = "pause"),
+               !.cmdSave = IF m.curCmd # "" THEN <<m.curCmd, m.curRun>> ELSE @]
 
 UpdReqRet(m, e, s2) ==
   LET kind == e[2] out == e[3]
@@ -504,7 +506,11 @@ UpdReqRet(m, e, s2) ==
             THEN [m2 EXCEPT !.failedPause = TRUE, !.failedPauseLate = (@ \/ last.pc = "tail")] ELSE m2
       m4 == IF kind = "defer" /\ acc THEN [m3 EXCEPT !.deferPending = TRUE] ELSE m3
       m5 == IF kind = "suspend" /\ acc /\ last.res /\ last.st = "running" THEN [m4 EXCEPT !.susp = @ \cup {e[3]}] ELSE m4
-  IN m5
+      \* the command during which the request(s) arrived goes on (e.g. a collect that was awaiting describe_collect() emits its
+      \* events afterwards): what is emitted from now on is its output again
+      m6 == IF m5.cmdSave[1] # "" /\ \A i \in 1..Len(m5.reqs) : m5.reqs[i].out # "" \/ m5.reqs[i].kind \in {"call:resume", "call:abort", "call:stop", "call:halt"}
+            THEN [m5 EXCEPT !.curCmd = m5.cmdSave[1], !.curRun = m5.cmdSave[2], !.cmdSave = <<"", "none">>] ELSE m5
+  IN m6
 
 UpdCall(m, e, s) ==
   LET op == e[2] IN
